@@ -31,6 +31,7 @@ void rec_reset(const char *drv, long exec_id, unsigned long seed);   /* new exec
 void rec_quiesce(void);                     /* emit quiesce (driver has cleared everything) */
 void rec_alloc_logging(int on);             /* switch allocator event logging (on by default) */
 long rec_live_blocks(void);
+size_t rec_block_size(void *p);                 /* size the allocator was asked for (0 if unknown) */
 
 /* --- deterministic PRNG for drivers (never MPIR's) --- */
 void     rnd_seed(uint64_t s);
@@ -56,6 +57,7 @@ void fn_in_limbs(const char *k, const mp_limb_t *p, mp_size_t n);
 void fn_in_int(const char *k, long v);
 void fn_in_u64(const char *k, uint64_t v);
 void fn_in_str(const char *k, const char *s);
+void fn_in_raw(const char *k, const char *json);               /* pre-formatted JSON value (e.g. an array of numerals) */
 void fn_mid(void);                                               /* inputs done; outputs follow (call the function between fn_begin..fn_mid? no: inputs are logged BEFORE the call, outputs after) */
 void fn_out_limbs(const char *k, const mp_limb_t *p, mp_size_t n);
 void fn_out_int(const char *k, long v);
